@@ -189,9 +189,9 @@ PROPS["C18"] = P([("gridfiles", "asan", 1200, 0.8), ("gridfiles", "fast", 500, 0
     "refinement radius inside / outside / at the ends of [R0,Rmax] and the CLI default 0, level caps; faults: open_fail, "
     "write_fail (ENOSPC/EIO), short_write, crash_after_write (clean or torn) at EVERY write index of small grids over the previous "
     "generation of the files, crash between the two files, truncate, torn last line, delete, empty, flipped byte, stale "
-    "generation, swapped files, appended garbage, nan/inf token, locale comma, a line duplicated over its neighbour, a rewrite "
-    "with 1-4 significant digits, read EIO, short reads; user-supplied radii/angle vectors with one defect (repeated, swapped, "
-    "zero, negative, NaN radius; repeated/swapped/unpaired angle; missing 0 or 2*pi; too few entries; one-ulp gap); annuli so "
+    "generation, swapped files, appended garbage, nan/inf token, locale comma, a line duplicated over its neighbour, a line deleted, a stray "
+    "line inserted, a rewrite with 1-4 significant digits, read EIO, short reads; user-supplied radii/angle vectors with one defect (repeated, swapped, "
+    "zero, negative, NaN radius; repeated/swapped/unpaired/inserted/deleted angle; missing 0 or 2*pi; too few entries; one-ulp gap); annuli so "
     "thin that nodes collapse in double precision",
     "deterministic simulation with file-system fault injection (libc I/O seam) in the ASan+UBSan+assert build; validity "
     "invariants or exception; strict round trip when fault-free; enumerated crash points",
@@ -202,7 +202,8 @@ PROPS["C18"] = P([("gridfiles", "asan", 1200, 0.8), ("gridfiles", "fast", 500, 0
     expect_probes=["parameters_accepted", "parameters_rejected", "refinement_radius_outside_domain", "anisotropic",
                    "round_trip", "load_rejected", "load_accepted", "crash_points_enumerated", "levels_checked",
                    "solver_loaded_grid", "nesting_checked", "explicit_grid_set_up", "explicit_grid_solved",
-                   "vectors_rejected", "vectors_accepted", "fault:duplicate_line", "fault:coarse_precision"])
+                   "vectors_rejected", "vectors_accepted", "fault:duplicate_line", "fault:coarse_precision",
+                   "fault:delete_line", "fault:insert_line", "mutation:insert_angle", "mutation:delete_angle"])
 PROPS["C20"] = P([("options", "asan", 1200, 0.4), ("options", "fast", 1200, 0.35), ("cli", "asan", 3000, 0.25)],
     "(a) option vectors through every public setter: all problem triples incl. Culham-free set, grids down to the smallest, "
     "anisotropic factor with refinement radius anywhere (incl. the CLI default 0), disabled tolerances, zero smoothing steps, zero "
